@@ -574,7 +574,321 @@ def gen_regex():
     return write_if_changed("Regex.lean", "\n".join(lines) + "\n")
 
 
-GENERATORS = [gen_gridops, gen_axis, gen_grid_defaults, gen_regex]
+# --------------------------------------------------------------------------
+# all anchored modules -> Gen/Sites.lean : writes to caller-owned objects (C18),
+# iterations over sets (C12)
+# --------------------------------------------------------------------------
+
+MUTATORS = {"popitem", "pop", "update", "setdefault", "clear", "append", "extend", "remove", "insert",
+            "sort", "reverse", "add", "discard"}
+READERS = {"get", "values", "items", "keys", "popitem", "pop", "copy_shallow_never"}
+PASS_THROUGH = {"_map_kwargs_over_axes", "_maybe_promote_str_to_list", "_maybe_unpack_vector_component",
+                "_check_data_input", "_promote_to_sequence_and_check", "_strip_all_coords_never"}
+SITE_MODULES = ["padding.py", "grid.py", "grid_ufunc.py", "transform.py", "metrics.py", "axis.py",
+                "metadata_parsers.py", "comodo.py", "sgrid.py"]
+ENTRY_POINTS = [
+    ("grid.py", "Grid.__init__"), ("grid.py", "Grid.diff"), ("grid.py", "Grid.interp"), ("grid.py", "Grid.min"),
+    ("grid.py", "Grid.max"), ("grid.py", "Grid.cumsum"), ("grid.py", "Grid.derivative"),
+    ("grid.py", "Grid.integrate"), ("grid.py", "Grid.average"), ("grid.py", "Grid.cumint"),
+    ("grid.py", "Grid.transform"), ("grid.py", "Grid.get_metric"), ("grid.py", "Grid.interp_like"),
+    ("grid.py", "Grid.set_metrics"), ("grid.py", "Grid.apply_as_grid_ufunc"),
+    ("grid.py", "Grid.diff_2d_vector"), ("grid.py", "Grid.interp_2d_vector"),
+    ("padding.py", "pad"), ("grid_ufunc.py", "apply_as_grid_ufunc"), ("grid_ufunc.py", "GridUFunc.__call__"),
+    ("grid_ufunc.py", "GridUFunc.__init__"), ("grid_ufunc.py", "as_grid_ufunc"),
+    ("transform.py", "transform"), ("axis.py", "Axis.__init__"),
+]
+# methods that are allowed to write the object's own state
+SELF_WRITERS = {"Grid.__init__", "Grid.set_metrics", "Grid._assign_face_connections", "Axis.__init__",
+                "GridUFunc.__init__", "_GridUFuncSignature.__init__"}
+
+
+class _Fn:
+    def __init__(self, module, qual, node):
+        self.module, self.qual, self.node = module, qual, node
+        a = node.args
+        self.params = [x.arg for x in a.posonlyargs + a.args + a.kwonlyargs]
+        self.vararg = a.vararg.arg if a.vararg else None
+        self.kwarg = a.kwarg.arg if a.kwarg else None
+
+
+def _collect_functions():
+    fns = {}
+    for m in SITE_MODULES:
+        try:
+            tree = ast.parse(src(m))
+        except Exception:
+            continue
+
+        def visit(body, prefix):
+            for node in body:
+                if isinstance(node, (ast.FunctionDef,)):
+                    q = prefix + node.name
+                    fns[(m, q)] = _Fn(m, q, node)
+                    visit(node.body, q + ".<locals>.")
+                elif isinstance(node, ast.ClassDef):
+                    visit(node.body, prefix + node.name + ".")
+        visit(tree.body, "")
+    return fns
+
+
+def _expr_tainted(e, T, kwname):
+    """does evaluating e yield (or contain) an object owned by the caller?"""
+    if isinstance(e, ast.Name):
+        return e.id in T
+    if isinstance(e, ast.Starred):
+        return _expr_tainted(e.value, T, kwname)
+    if isinstance(e, (ast.Tuple, ast.List)):
+        return any(_expr_tainted(x, T, kwname) for x in e.elts)
+    if isinstance(e, ast.Subscript):
+        return _expr_tainted(e.value, T, kwname)
+    if isinstance(e, ast.IfExp):
+        return _expr_tainted(e.body, T, kwname) or _expr_tainted(e.orelse, T, kwname)
+    if isinstance(e, ast.BoolOp):
+        return any(_expr_tainted(v, T, kwname) for v in e.values)
+    if isinstance(e, ast.NamedExpr):
+        return _expr_tainted(e.value, T, kwname)
+    if isinstance(e, ast.Call):
+        f = e.func
+        if isinstance(f, ast.Attribute):
+            base = f.value
+            if isinstance(base, ast.Name) and base.id == kwname and f.attr in ("pop", "get"):
+                return True                          # a value the caller passed as keyword argument
+            if f.attr in ("get", "values", "items", "keys", "popitem", "pop") and _expr_tainted(base, T, kwname):
+                return True                          # an element of a caller-owned container
+            if f.attr in PASS_THROUGH and any(_expr_tainted(a, T, kwname) for a in e.args):
+                return True
+            return False                             # any other method call returns a new object
+        if isinstance(f, ast.Name):
+            if f.id in PASS_THROUGH and any(_expr_tainted(a, T, kwname) for a in e.args):
+                return True
+            if f.id in ("list", "tuple", "reversed", "zip", "enumerate", "iter", "next", "sorted"):
+                # a new container, but its elements are the caller's objects
+                return any(_expr_tainted(a, T, kwname) for a in e.args)
+            return False
+    return False
+
+
+def _targets(t):
+    if isinstance(t, ast.Name):
+        return [t.id]
+    if isinstance(t, (ast.Tuple, ast.List)):
+        out = []
+        for x in t.elts:
+            out += _targets(x)
+        return out
+    if isinstance(t, ast.Starred):
+        return _targets(t.value)
+    return []
+
+
+def _analyse(fn, tainted_params, fns, writes, calls):
+    """flow-sensitive (branches merged by union, loops run twice) taint pass over one function"""
+    kwname = fn.kwarg
+    is_method = "." in fn.qual and fn.params and fn.params[0] == "self"
+
+    def record(node, kind, what):
+        writes.add((fn.module, fn.qual, node.lineno, kind, what))
+
+    def base_name(e):
+        while isinstance(e, (ast.Subscript, ast.Attribute)):
+            e = e.value
+        return e.id if isinstance(e, ast.Name) else None
+
+    def scan_calls(node, T):
+        for c in ast.walk(node):
+            if not isinstance(c, ast.Call):
+                continue
+            f = c.func
+            if isinstance(f, ast.Attribute) and f.attr in MUTATORS and isinstance(f.value, ast.Name):
+                nm = f.value.id
+                if nm in T and nm != kwname:
+                    record(c, "call", f"{nm}.{f.attr}()")
+                if nm == "self" and is_method and fn.qual not in SELF_WRITERS:
+                    pass
+            if isinstance(f, ast.Attribute) and f.attr in MUTATORS and isinstance(f.value, ast.Attribute) \
+                    and isinstance(f.value.value, ast.Name) and f.value.value.id == "self" \
+                    and fn.qual.split(".<locals>.")[0] not in SELF_WRITERS:
+                record(c, "self-call", f"self.{f.value.attr}.{f.attr}()")
+            # propagate into callees defined in xgcm
+            cname = f.id if isinstance(f, ast.Name) else (f.attr if isinstance(f, ast.Attribute) else None)
+            if cname is None:
+                continue
+            for key, callee in fns.items():
+                if callee.qual.split(".")[-1] != cname:
+                    continue
+                params = list(callee.params)
+                if params and params[0] == "self":
+                    params = params[1:]
+                tp = set()
+                for i, a in enumerate(c.args):
+                    if isinstance(a, ast.Starred):
+                        if _expr_tainted(a.value, T, kwname) and callee.vararg:
+                            tp.add(callee.vararg)
+                        continue
+                    if _expr_tainted(a, T, kwname):
+                        if i < len(params):
+                            tp.add(params[i])
+                        elif callee.vararg:
+                            tp.add(callee.vararg)
+                for k in c.keywords:
+                    if k.arg is None:
+                        continue
+                    if _expr_tainted(k.value, T, kwname):
+                        tp.add(k.arg if k.arg in callee.params else ("**" + (callee.kwarg or "")))
+                if tp:
+                    calls.add((key, frozenset(tp)))
+
+    def run(stmts, T):
+        for s in stmts:
+            if isinstance(s, (ast.FunctionDef, ast.ClassDef)):
+                continue
+            if isinstance(s, ast.If):
+                scan_calls(s.test, T)
+                t1 = run(s.body, set(T))
+                t2 = run(s.orelse, set(T))
+                T = t1 | t2
+                continue
+            if isinstance(s, (ast.For,)):
+                scan_calls(s.iter, T)
+                for _ in range(2):
+                    if _expr_tainted(s.iter, T, kwname) or (
+                            isinstance(s.iter, ast.Call) and isinstance(s.iter.func, ast.Attribute)
+                            and _expr_tainted(s.iter.func.value, T, kwname)):
+                        T |= set(_targets(s.target))
+                    T = run(s.body, T)
+                T = run(s.orelse, T)
+                continue
+            if isinstance(s, ast.While):
+                for _ in range(2):
+                    T = run(s.body, T)
+                continue
+            if isinstance(s, ast.Try):
+                T = run(s.body, T)
+                for h in s.handlers:
+                    T |= run(h.body, set(T))
+                T = run(s.orelse, T)
+                T = run(s.finalbody, T)
+                continue
+            if isinstance(s, ast.With):
+                T = run(s.body, T)
+                continue
+            scan_calls(s, T)
+            if isinstance(s, (ast.Assign, ast.AnnAssign, ast.AugAssign)):
+                tgts = s.targets if isinstance(s, ast.Assign) else [s.target]
+                val = s.value
+                for t in tgts:
+                    if isinstance(t, (ast.Subscript, ast.Attribute)):
+                        b = base_name(t)
+                        if b is not None and b in T and b != kwname:
+                            record(s, "assign", ast.unparse(t))
+                        if b == "self" and fn.qual.split(".<locals>.")[0] not in SELF_WRITERS and is_method:
+                            record(s, "self-assign", ast.unparse(t))
+                    for nm in _targets(t):
+                        if val is not None and _expr_tainted(val, T, kwname) and not isinstance(s, ast.AugAssign):
+                            T.add(nm)
+                        elif not isinstance(s, ast.AugAssign):
+                            T.discard(nm)
+            elif isinstance(s, ast.Delete):
+                for t in s.targets:
+                    if isinstance(t, ast.Subscript):
+                        b = base_name(t)
+                        if b in T and b != kwname:
+                            record(s, "del", ast.unparse(t))
+        return T
+
+    T0 = set(tainted_params)
+    if fn.vararg and fn.vararg in tainted_params:
+        T0.add(fn.vararg)
+    run(fn.node.body, T0)
+    # nested functions see the enclosing tainted names (closures) and their own tainted params
+    for key, sub in fns.items():
+        if sub.module == fn.module and sub.qual.startswith(fn.qual + ".<locals>.") \
+                and "." not in sub.qual[len(fn.qual) + len(".<locals>."):]:
+            pass
+
+
+def gen_sites():
+    fns = _collect_functions()
+    writes, seen = set(), set()
+    work = []
+    for m, q in ENTRY_POINTS:
+        fn = fns.get((m, q))
+        if fn is None:
+            continue
+        tp = set(fn.params) - {"self"}
+        if fn.vararg:
+            tp.add(fn.vararg)
+        work.append(((m, q), frozenset(tp)))
+    recognised = True
+    steps = 0
+    try:
+        while work and steps < 2000:
+            steps += 1
+            key, tp = work.pop()
+            if (key, tp) in seen:
+                continue
+            seen.add((key, tp))
+            calls = set()
+            _analyse(fns[key], tp, fns, writes, calls)
+            # nested helper functions are analysed with the same taint when they are called by name
+            for c in calls:
+                if c not in seen:
+                    work.append(c)
+    except Exception as e:  # noqa: BLE001
+        recognised = False
+        print(f"extract: site analysis failed: {type(e).__name__}: {e}", file=sys.stderr)
+
+    # C12: iterations over set-typed values
+    set_iters = []
+    for m in SITE_MODULES:
+        try:
+            text = src(m)
+            tree = ast.parse(text)
+        except Exception:
+            continue
+        for node in ast.walk(tree):
+            it = None
+            if isinstance(node, ast.For):
+                it = node.iter
+            elif isinstance(node, ast.comprehension):
+                it = node.iter
+            elif isinstance(node, ast.Call) and isinstance(node.func, ast.Name) and node.func.id in ("list", "tuple", "zip") \
+                    and node.args:
+                for a in node.args:
+                    if isinstance(a, ast.Call) and isinstance(a.func, ast.Name) and a.func.id in ("set", "frozenset"):
+                        set_iters.append((m, a.lineno, ast.unparse(node)[:80]))
+                continue
+            if it is None:
+                continue
+            if isinstance(it, ast.Call) and isinstance(it.func, ast.Name) and it.func.id in ("set", "frozenset"):
+                set_iters.append((m, it.lineno, ast.unparse(it)[:80]))
+            elif isinstance(it, ast.BinOp) and isinstance(it.op, (ast.BitOr, ast.BitAnd, ast.Sub)) and any(
+                    isinstance(x, ast.Call) and isinstance(x.func, ast.Name) and x.func.id in ("set", "frozenset")
+                    for x in (it.left, it.right)):
+                set_iters.append((m, it.lineno, ast.unparse(it)[:80]))
+
+    lines = ["import XgcmModel.Model.Basic",
+             "/- GENERATED by tools/extract.py (static taint analysis of xgcm/*.py) — do not edit -/",
+             "namespace Xgcm.Gen", "open Xgcm", ""]
+    lines.append("/-- statements that modify, in place, an object reachable from an argument of a public entry")
+    lines.append("    point (or the Grid's own state outside the constructor / set_metrics):")
+    lines.append("    (module, function, line, kind, target) -/")
+    lines.append("def argumentWrites : List (String × String × Nat × String × String) := [")
+    lines.append(",\n".join(f"  ({lean_str(m)}, {lean_str(q)}, {ln}, {lean_str(k)}, {lean_str(w)})"
+                           for m, q, ln, k, w in sorted(writes)))
+    lines.append("]")
+    lines.append(f"def sitesRecognised : Bool := {'true' if recognised else 'false'}")
+    lines.append(f"def sitesFunctionsAnalysed : Nat := {len({k for k, _ in seen})}")
+    lines.append("/-- iterations over / materialisations of set-typed values (informational, C12) -/")
+    lines.append("def setIterations : List (String × Nat × String) := [")
+    lines.append(",\n".join(f"  ({lean_str(m)}, {ln}, {lean_str(t)})" for m, ln, t in sorted(set(set_iters))))
+    lines.append("]")
+    lines.append("")
+    lines.append("end Xgcm.Gen")
+    return write_if_changed("Sites.lean", "\n".join(lines) + "\n")
+
+
+GENERATORS = [gen_gridops, gen_axis, gen_grid_defaults, gen_regex, gen_sites]
 
 
 def main():
@@ -592,3 +906,5 @@ def main():
 
 if __name__ == "__main__":
     sys.exit(main())
+
+
